@@ -1,5 +1,6 @@
 import Dcg.Model.Version
 import Dcg.Proofs.KwFlow
+import Dcg.Gen.HeaderFlow
 /-
 C19 — output only uses what the chosen target Python version provides.
 `Dcg/Gen/Versions` is regenerated from /repo on every run; `Dcg/Model/Version` is the authored
@@ -126,6 +127,55 @@ theorem field_kw_only_unguarded :
     sites.any (fun s => s.kind == .fieldKey && s.file == k! "model/dataclass.py" &&
       !safe predSince kwOnlyBound s.expr) = true ∧
     fieldLevelPossible (k! "dataclasses.dataclass") = true := by decide +kernel
+
+/-! ### The file header and the module's `from __future__ import annotations`
+`X | Y` in class-body annotations of dataclasses / class-syntax TypedDicts is legal for targets < 3.10 only because the module
+starts with the future import. What generate() prints in front of the module decides whether that is still so. -/
+section Header
+open Dcg.Model.Header
+
+/-- REVIEWED: how the names printed into the output file are bound in generate(): the header is the parameter or the text of
+`custom_file_header_path`; the default header a literal plus appended text; body and filename the loop variables over
+`modules.items()`; `modules` built from the parser's results. Nothing re-binds them in between. -/
+def reviewedBindings : List (Nat × Src) := [
+  (k! "custom_file_header", .param),
+  (k! "modules", .fromResults), (k! "modules", .fromResults),
+  (k! "custom_file_header", .readPath),
+  (k! "header", .literal), (k! "header", .appendText), (k! "header", .appendText),
+  (k! "body", .loopVar), (k! "filename", .loopVar),
+  (k! "body", .loopVar), (k! "filename", .loopVar)]
+
+def filePrints : List (Out × Bool) := (Dcg.Gen.HeaderFlow.prints.map (·.2)).filter (fun p => p.1 != .console)
+
+/-- kernel-checked on the table regenerated from generate(): into an output file go the header expression, and under
+`if body:` a blank line and `body.rstrip()` — nothing else; every name these read is bound as reviewed (a helper that takes
+the future import out of the body, a re-bound body or header, another printed name all change the table). -/
+theorem header_flow_reviewed :
+    filePrints = reviewedPrints ∧ Dcg.Gen.HeaderFlow.bindings.map (·.2) = reviewedBindings := by decide +kernel
+
+/-- UNBOUNDED over headers and bodies: the module written for ANY header `h` in front of a body that starts with its future
+import (and has no other) is `h ++ body`: the future import is still there; it is effective (annotations stay strings) exactly
+when the header is a docstring and future imports at most, and misplaced (SyntaxError at compile time) otherwise. -/
+theorem future_import_survives_header (h r : List Item) (hr : Item.future ∉ r) :
+    ∃ out, emit filePrints h (.future :: r) = some out ∧ Item.future ∈ out ∧
+      effective out = headerClean h ∧ misplaced out = !(headerClean h) := by
+  rw [header_flow_reviewed.1]
+  exact ⟨_, emit_reviewed h r .future, by simp, effective_iff h r hr, misplaced_iff h r hr⟩
+
+/-- non-vacuity: a docstring-only header keeps the import effective; comments only (no statement) as well -/
+example : effective ([.doc] ++ .future :: [.code]) = true ∧ effective ([] ++ .future :: [.code]) = true ∧
+    effective ([.doc, .future] ++ .future :: [.code]) = true := by decide
+
+/-- REFUTATION kept for the pinned tree (known finding C19-header-code-future-import): a header with a statement of its own
+leaves the module's future import behind that statement — the emitted module does not compile, on any target. -/
+theorem header_code_future_misplaced (h r : List Item) (hr : Item.future ∉ r) (hc : headerClean h = false) :
+    ∃ out, emit filePrints h (.future :: r) = some out ∧ misplaced out = true ∧ effective out = false := by
+  obtain ⟨out, he, _, heff, hmis⟩ := future_import_survives_header h r hr
+  exact ⟨out, he, by rw [hmis, hc]; rfl, by rw [heff, hc]⟩
+
+example : headerClean [.code] = false ∧ headerClean [.doc, .code] = false ∧ headerClean [.future, .code] = false := by decide
+
+end Header
 
 /-! ### Refutations kept for the pinned tree (known finding D16) -/
 
